@@ -82,7 +82,7 @@ def gen(rng, cid, tier, plugin=None, pid0=True):
 
 
 def cases(seed, tier):
-    n = 400 if tier == "quick" else 6000
+    n = 1000 if tier == "quick" else 6000
     rng = random.Random(seed * 1000003 + 1)
     for i in range(n):
         cid = "C01-%d-%d" % (seed, i)
